@@ -8,6 +8,7 @@ EXTENDS NoisePipe, TLC, Json
 CONSTANTS MSG, TAG, R, W, CHUNK,          \* sizes (unit-scaled)
           WSizes, RBufs, ChunkSizes, RoomSizes,
           MaxWrites, MaxOps, MaxPend, MaxFrames, PlanKinds,
+          MaxQueue, \* max. number of chunks queued ahead of the reader
           Phased   \* TRUE: the writer finishes before the carrier/reader start (see DESIGN: no loss of reader behaviours)
 
 C == [MSG |-> MSG, TAG |-> TAG, R |-> R, W |-> W, CHUNK |-> CHUNK]
@@ -50,10 +51,10 @@ Next ==
      \/ /\ ~wd /\ ~I.Wr.writing /\ P.fl /\ nw > 0
         /\ Do([e |-> "wdone"])
         /\ wd' = TRUE /\ UNCHANGED <<rp, npend, nw>>
-     \/ /\ (Phased => wd) /\ Unscripted(C, I) > 0
+     \/ /\ (Phased => wd) /\ Unscripted(C, I) > 0 /\ Len(I.ch) < MaxQueue
         /\ \E c \in ChunkSizes \cup {Unscripted(C, I)} : c <= Unscripted(C, I) /\ Do([e |-> "chunk", c |-> c, n |-> 1])
         /\ UNCHANGED <<rp, npend, nw, wd>>
-     \/ /\ (Phased => wd) /\ npend < MaxPend /\ (IF I.ch = <<>> THEN TRUE ELSE I.ch[Len(I.ch)].c # 0)
+     \/ /\ (Phased => wd) /\ npend < MaxPend /\ Len(I.ch) < MaxQueue /\ (IF I.ch = <<>> THEN TRUE ELSE I.ch[Len(I.ch)].c # 0)
         /\ Do([e |-> "chunk", c |-> 0, n |-> 1])
         /\ npend' = npend + 1 /\ UNCHANGED <<rp, nw, wd>>
      \/ /\ ~I.closed /\ wd /\ Unscripted(C, I) = 0
